@@ -24,6 +24,19 @@ UNITS = [
       ["assign_raw.release", "assign_raw.same"]),
     U("Ptr.swap", "h_swap", ("w_Ptr_swap", None), ["swap.different"]),
 ]
+# the String clauses of C09 (count == handles, block released exactly when last, never written while shared)
+# are the ledger parts of C06's contracts: the release-relevant units are run under C09 as well
+import importlib.util as _ilu, os as _os
+_sp = _ilu.spec_from_file_location("units_c06_for_c09", _os.path.join(_os.path.dirname(__file__), "c06.py"))
+_c06 = _ilu.module_from_spec(_sp)
+_sp.loader.exec_module(_c06)
+for _u in _c06.UNITS:
+    if _u["name"] in ("String.layout", "String.ctor_copy", "String.dtor", "String.assign_op", "String.assign_op@self", "String.clear",
+                      "String.attach", "String.resize", "String.append_char"):
+        _d = dict(_u)
+        _d["prop"] = "C09"
+        UNITS.append(_d)
+
 TRUSTED = ["cbmc 6.11.0 / goto-instrument DFCC / CaDiCaL", "goto-cc C++ front end; RefCount.hpp without its member templates (compat rule R6)",
            "dep/nstd/Atomic.hpp: increment/decrement modelled as sequentially atomic ++/--"]
 ASSUMPTIONS = [
